@@ -33,7 +33,7 @@ impl<C: CommentsParser> MdParser<C> {
         let html_comments_parser = TreeSitterCommentsParser::new(
             &html_lang,
             Box::new(|node, source_code| {
-                if node.kind() == "comment" {
+                if node.kind() == "comment" && !super::is_inside_literal_text(node) {
                     Some(source_code[node.byte_range()].to_string())
                 } else {
                     None
